@@ -26,7 +26,7 @@ Judge(r) ==
       E == r.bundles[r.key]
       expd == IF Has(r, "prog") THEN Expected(r.prog, E.on, E.name, r.expose) ELSE {}
       got == {Proj(f) : f \in found}
-  IN [bad |-> bad,
+  IN [bad |-> {[path |-> f.path, kind |-> f.kind, name |-> f.name, on |-> f.on, sel |-> f.sel, problems |-> f.problems] : f \in bad},
       missing |-> IF Has(r, "prog") THEN expd \ got ELSE {},
       extra |-> IF Has(r, "prog") THEN got \ expd ELSE {},
       n |-> Cardinality(found),
